@@ -85,6 +85,13 @@ def strategy(tier):
     return case_strategy()
 
 
+def enumerate_cases(tier):
+    """hash maps with up to 255 variables (and more, if the library takes
+    them)"""
+    for case in c09.enumerate_cases(tier):
+        yield dict(case, exec="fake", ncpu=4, online_delta=1, possible_form=0)
+
+
 def run_case(case):
     case = dict(case, exec="fake")
     r = c09.run_case(case)
